@@ -3,6 +3,7 @@ import XModel.Capstone
 import XModel.ManagerC20
 import XModel.ManagerC20Fn
 import XModel.ManagerBisim2
+import XModel.ManagerKnobShared
 import XProofs.Properties.C01
 /-!
 # C20 — results do not depend on the build or the hash seed
@@ -17,6 +18,13 @@ parameter `sched`.  Proved on the executable manager (`XModel/Manager.lean`, the
   identical states (event log aside, which is the order itself); `C20_histories_per_call` — the same call by call
   (state after every call and error of every call), for managers that may also hold function tasks and knobs
   (scope `GoodRunR`, `XModel/ManagerBisim2.lean`).
+
+* `C20_knob_runs_commute`, `C20_knob_runs_any_order`, `C20_knob_assignment_order_independent` — LINEAR-KNOB tasks
+  (`XModel/ManagerKnobShared.lean`): on integer data two knob runs commute whatever targets they share, the triggered
+  knobs of an assignment may be run in any two orders, and an assignment whose triggered tasks are all knobs gives the same
+  container tree and the same remembered values under any two schedulers (no ordering constraint is needed at all, and
+  both calls complete).  Not covered: triggered sets mixing knobs with expression / function tasks when targets are
+  shared, non-int values, faults.
 
 The scope is C01's (`Scope`): outside it — two tasks writing below one nested container and feeding each other,
 known finding D1 — the result *does* depend on the order, in the model (`C20_order_matters_outside_scope`) and in
@@ -159,5 +167,110 @@ example : outcomesR Bisim2Example.fLast Bisim2Example.sM Bisim2Example.hist =
     outcomesR id Bisim2Example.sM Bisim2Example.hist :=
   C20_histories_per_call id Bisim2Example.fLast Bisim2Example.hist Bisim2Example.sM Bisim2Example.sM_inv
     Bisim2Example.hist_two_seeds
+
+
+/-! ### linear-knob tasks (XModel/ManagerKnobShared.lean) -/
+
+/-- **two knob runs commute**: `F` a family of linear knobs (`KnobFamily`: distinct ids, canonical sources and targets, no
+    knob target is a knob source; targets may be shared and repeated), integer data in `s` (`IntData`: remembered values,
+    sources and targets of the family are ints), no armed fault, `K, K' ∈ F`.  Then `K.run(); K'.run()` and
+    `K'.run(); K.run()` both complete and end in the same state in the sense of `KnobEquiv`: the SAME container tree
+    (equality of values, so `get` agrees at every path), the same remembered value `lookPrev` for EVERY id, the same
+    `idx / defs / frozen / faultIn` — whatever targets `K` and `K'` share.  Not compared: the association list `prev` itself
+    and the event log, which record the order (`Manager.SharedExample.prev_lists_differ`).
+    Outside: non-int values, injected faults (recovery is false for knobs, C18). -/
+theorem C20_knob_runs_commute {F : List MTask} {s : MState} (hF : KnobFamily F) (hf : s.faultIn = none)
+    (hd : IntData F s) {K K' : MTask} (hK : K ∈ F) (hK' : K' ∈ F) :
+    ∃ s12 s21, (runTask s K).2 = none ∧ (runTask s K').2 = none ∧
+      runTask (runTask s K).1 K' = (s12, none) ∧ runTask (runTask s K').1 K = (s21, none) ∧ KnobEquiv s12 s21 :=
+  runTask_knob_comm hF hf hd hK hK'
+
+/-- … read through the getters: the same value at every path and the same remembered value at every id -/
+theorem C20_knob_runs_commute_getters {F : List MTask} {s : MState} (hF : KnobFamily F) (hf : s.faultIn = none)
+    (hd : IntData F s) {K K' : MTask} (hK : K ∈ F) (hK' : K' ∈ F) :
+    (∀ q, get (runTask (runTask s K).1 K').1.store q = get (runTask (runTask s K').1 K).1.store q) ∧
+    (∀ id, lookPrev (runTask (runTask s K).1 K').1.prev id = lookPrev (runTask (runTask s K').1 K).1.prev id) := by
+  obtain ⟨a, b, _, _, h1, h2, he⟩ := runTask_knob_comm hF hf hd hK hK'
+  rw [h1, h2]
+  exact ⟨he.get, he.prev⟩
+
+/-- **the triggered knobs in any two orders** (the analogue of `OrderIndep.perm_run` for knob tasks): two lists of knobs of
+    the family with the same members — in particular two permutations, `C20_knob_runs_permuted` — run from the same
+    integer state both complete and end in the same state (`KnobEquiv`).  No hypothesis relates the order to the declared
+    graph: knobs do not read what knobs write. -/
+theorem C20_knob_runs_any_order {F : List MTask} {s : MState} (hF : KnobFamily F) (hf : s.faultIn = none)
+    (hd : IntData F s) (l l' : List MTask) (hl : ∀ k ∈ l, k ∈ F) (hmem : ∀ k, k ∈ l ↔ k ∈ l') :
+    ∃ s1 s2, runTasks s l = (s1, none) ∧ runTasks s l' = (s2, none) ∧ KnobEquiv s1 s2 :=
+  runTasks_knobs_any_order hF hf hd l l' hl hmem
+
+theorem C20_knob_runs_permuted {F : List MTask} {s : MState} (hF : KnobFamily F) (hf : s.faultIn = none)
+    (hd : IntData F s) {l l' : List MTask} (hl : ∀ k ∈ l, k ∈ F) (hp : l.Perm l') :
+    ∃ s1 s2, runTasks s l = (s1, none) ∧ runTasks s l' = (s2, none) ∧ KnobEquiv s1 s2 :=
+  runTasks_knobs_perm hF hf hd hl hp
+
+/-- **`set_value(ref, int)` whose triggered tasks are all knobs of the family**, in the style of `C20_set_value`: the
+    hypotheses are on the state in which `set_value` writes (`preState s p`): no armed fault, integer data for `F`, `p` a
+    canonical non-empty path holding an int and not a target of the family, every triggered id is the id of a knob of `F`,
+    and each scheduler returns the triggered ids in SOME order (`∀ id, id ∈ sched L ↔ id ∈ L` — `ValidSched.mem`; neither
+    `ValidSched.order` nor `.nodup` is needed).  If the call completes under the first scheduler it completes under the
+    second and the two end in the same state (`KnobEquiv`: same tree, same `lookPrev` everywhere, same
+    `idx / defs / frozen / faultIn`).  `C20_knob_assignment_completes` adds completion of both when `p` has no definition.
+    Outside: triggered sets that contain an expression / function task (with pairwise incomparable targets those are
+    `C20_histories_per_call`'s and C01's mixed scope; with shared targets nothing is proved), non-int values, faults. -/
+theorem C20_knob_assignment_order_independent (sched1 sched2 : Sched) {F : List MTask} (hF : KnobFamily F) (s : MState)
+    (p : Path) (v : Int) (hf : (preState s p).faultIn = none) (hd : IntData F (preState s p)) (hcp : canonPath p)
+    (hne : p ≠ []) (hpint : ∃ x, get (preState s p).store p = .ok (.int x)) (hpt : p ∉ famTargets F)
+    (hfam : ∀ id ∈ findTaskids (preState s p).idx (chainR p), ∃ k ∈ F, lookDef (preState s p).defs id = some k)
+    (h1 : ∀ id, id ∈ sched1 (findTaskids (preState s p).idx (chainR p)) ↔ id ∈ findTaskids (preState s p).idx (chainR p))
+    (h2 : ∀ id, id ∈ sched2 (findTaskids (preState s p).idx (chainR p)) ↔ id ∈ findTaskids (preState s p).idx (chainR p))
+    (s1 : MState) (hok : setValue sched1 s p (.int v) = (s1, none)) :
+    ∃ s2, setValue sched2 s p (.int v) = (s2, none) ∧ KnobEquiv s1 s2 :=
+  setValue_knob_sched_indep sched1 sched2 hF s p v hf hd hcp hne hpint hpt hfam h1 h2 s1 hok
+
+/-- the same for two LEGAL schedules (`ValidSched`, as in `C20_set_value`) -/
+theorem C20_knob_assignment_legal_schedules (sched1 sched2 : Sched) {F : List MTask} (hF : KnobFamily F) (s : MState)
+    (p : Path) (v : Int) (hf : (preState s p).faultIn = none) (hd : IntData F (preState s p)) (hcp : canonPath p)
+    (hne : p ≠ []) (hpint : ∃ x, get (preState s p).store p = .ok (.int x)) (hpt : p ∉ famTargets F)
+    (hfam : ∀ id ∈ findTaskids (preState s p).idx (chainR p), ∃ k ∈ F, lookDef (preState s p).defs id = some k)
+    (hvs1 : ValidSched (gOf (preState s p).idx) (findTaskids (preState s p).idx (chainR p))
+      (sched1 (findTaskids (preState s p).idx (chainR p))))
+    (hvs2 : ValidSched (gOf (preState s p).idx) (findTaskids (preState s p).idx (chainR p))
+      (sched2 (findTaskids (preState s p).idx (chainR p))))
+    (s1 : MState) (hok : setValue sched1 s p (.int v) = (s1, none)) :
+    ∃ s2, setValue sched2 s p (.int v) = (s2, none) ∧ KnobEquiv s1 s2 :=
+  setValue_knob_sched_indep sched1 sched2 hF s p v hf hd hcp hne hpint hpt hfam hvs1.mem hvs2.mem s1 hok
+
+/-- when `p` has no definition of its own, BOTH calls complete (completion is a conclusion) -/
+theorem C20_knob_assignment_completes (sched1 sched2 : Sched) {F : List MTask} (hF : KnobFamily F) (s : MState)
+    (p : Path) (v : Int) (hnodef : lookDef s.defs p = none) (hf : s.faultIn = none) (hd : IntData F s)
+    (hcp : canonPath p) (hne : p ≠ []) (hpint : ∃ x, get s.store p = .ok (.int x)) (hpt : p ∉ famTargets F)
+    (hfam : ∀ id ∈ findTaskids s.idx (chainR p), ∃ k ∈ F, lookDef s.defs id = some k)
+    (h1 : ∀ id, id ∈ sched1 (findTaskids s.idx (chainR p)) ↔ id ∈ findTaskids s.idx (chainR p))
+    (h2 : ∀ id, id ∈ sched2 (findTaskids s.idx (chainR p)) ↔ id ∈ findTaskids s.idx (chainR p)) :
+    ∃ s1 s2, setValue sched1 s p (.int v) = (s1, none) ∧ setValue sched2 s p (.int v) = (s2, none) ∧
+      KnobEquiv s1 s2 :=
+  setValue_knob_sched_total sched1 sched2 hF s p v hnodef hf hd hcp hne hpint hpt hfam h1 h2
+
+/-- … with every hypothesis a Boolean test on the state (`knobSchedIndepB`: the family is the set of triggered tasks); the
+    test is not run by the driver -/
+theorem C20_knob_assignment_decided (sched1 sched2 : Sched) (s : MState) (p : Path) (v : Int)
+    (h : knobSchedIndepB sched1 sched2 s p = true) :
+    ∃ s1 s2, setValue sched1 s p (.int v) = (s1, none) ∧ setValue sched2 s p (.int v) = (s2, none) ∧
+      KnobEquiv s1 s2 :=
+  setValue_knob_sched_decided sched1 sched2 s p v h
+
+/-- non-vacuity (`Manager.SharedExample`): at `t1` the assignment `d.x := v` triggers three knobs — `#K1: a += 2Δx`,
+    `#K4: a += 7Δx, b -= Δx` on the same source, and `#K2: a += 3Δy, b += Δy`, which declares `d.x` as a dependency and
+    finds `Δ = 0` — all sharing `d.a`; the schedulers `id` and `rev` run them as `[#K4, #K2, #K1]` and `[#K1, #K2, #K4]`;
+    the test holds, the trees are equal, the association lists of remembered values are not -/
+example : knobSchedIndepB id SharedExample.rev SharedExample.t1 (SharedExample.d "x") = true := SharedExample.decided_t1
+example : knobTriggered id SharedExample.t1 (SharedExample.d "x") = .ok [SharedExample.K4, SharedExample.K2x, SharedExample.K1] ∧
+    knobTriggered SharedExample.rev SharedExample.t1 (SharedExample.d "x") =
+      .ok [SharedExample.K1, SharedExample.K2x, SharedExample.K4] := ⟨SharedExample.trig_t1, SharedExample.trig_t1_rev⟩
+example : (setValue id SharedExample.t1 (SharedExample.d "x") (.int 5)).1.store =
+    (setValue SharedExample.rev SharedExample.t1 (SharedExample.d "x") (.int 5)).1.store := rfl
+example : KnobFamily SharedExample.F ∧ IntData SharedExample.F SharedExample.s1 ∧ SharedExample.K1 ∈ SharedExample.F ∧
+    SharedExample.K2 ∈ SharedExample.F :=
+  ⟨SharedExample.family_F, SharedExample.at_s1.inv.data, by simp [SharedExample.F], by simp [SharedExample.F]⟩
 
 end Properties.C20
